@@ -32,6 +32,8 @@ var c04Args = []struct{ cls, text string }{
 	{"-2^63", "-9223372036854775809"}, {"1e100", "10000000000000000000000000000000000000000000000000000000000000000000000000000000000000000000000000000"},
 	{"tiny", "0.0000000000000000000000000000000000000000000000000000000000000001"}, {"2e9", "2000000000"}, {"big-frac", "123456789.123456789123456789"},
 	{"empty", `""`}, {"text", `"hello world"`}, {"numtext", `"12"`}, {"long", "long"}, {"unicode", `"é😀\u0000"`}, {"cyrillic", `"да"`}, {"arabic-digit", `"١"`}, {"emoji-spaced", `" 😀 "`}, {"ascii3", `"abc"`}, {"2^64", "18446744073709551616"}, {"-2^64", "-18446744073709551616"}, {"2^64+1", "18446744073709551617"}, {"2^65", "36893488147419103232"}, {"null", "null"}, {"true", "true"}, {"error", "(1/0)"},
+	{"multiline", `"a\nb"`}, {"newline", `"\n"`}, {"lead-newline", `"\nx"`}, {"array-multiline-empty", `array("", "a\nb")`}, {"array-multiline-nested", `array(array("a\nb", ""), "", "\n")`},
+	{"object-multiline", `object("a", "", "b", "x\ny", "c", array("", "p\nq"))`},
 	{"array", "array(1, \"x\", null)"}, {"empty-array", "array()"}, {"nested", "array(array(array(1)), object(\"a\", array()))"}, {"object", "object(\"a\", 1, \"b\", \"x\")"},
 	{"json", `parse_json("{\"a\":[1,{\"b\":null}],\"__default__\":5}")`}, {"func", "upper"}, {"lambda", "(x) => x"}, {"date1", `datetime("0001-01-01T00:00:00Z")`}, {"date9999", `datetime("9999-12-31T23:59:59Z")`},
 	{"date", `date("2024-02-29")`}, {"time", `time("23:59:59.999999")`}, {"format", `"YYYY-MM-DD tt:mm:ss.fffffffff"`}, {"regex", `"(a+)+$"`}, {"bad-regex", `"[("`}, {"tz", `"America/Santiago"`}, {"ctx", "big"},
